@@ -1224,11 +1224,11 @@ def _wrap_pre_posts(exe, m, f, ref, chars, outs, mode):
         nl = z3.And(c == 0x0a, m.wordlen.e == 0, z3.Not(m.word_nonempty.e))
         post(exe, s2, z3.Implies(nl, z3.And(p["count"] == m.text_count.e + 1, p["line_len"] == 0, p["wslen"] == 0, z3.Not(p["pre_wrapped"]))),
              f.name, "add_text(%s): a newline ends the line and resets pending space" % mode)
-        tab_fits = z3.And(c == 0x09, m.wordlen.e == 0, z3.Not(m.word_nonempty.e), m.wslen.e == 0,
-                          z3.ULE(m.line_len.e + 8, m.width.e))
-        nxt = (z3.UDiv(m.line_len.e, u64(8)) + 1) * 8
-        post(exe, s2, z3.Implies(tab_fits, z3.And(p["line_len"] == nxt, p["count"] == m.text_count.e)),
-             f.name, "add_text(%s): a tab advances to the next 8-column stop" % mode)
+        col = m.line_len.e + m.wslen.e          # the column the tab starts from: pending spaces count
+        nxt = (z3.UDiv(col, u64(8)) + 1) * 8
+        tab_fits = z3.And(c == 0x09, m.wordlen.e == 0, z3.Not(m.word_nonempty.e), z3.ULE(nxt, m.width.e))
+        post(exe, s2, z3.Implies(tab_fits, z3.And(p["line_len"] + p["wslen"] == nxt, p["count"] == m.text_count.e)),
+             f.name, "add_text(%s): a tab advances to the next 8-column stop, counting pending spaces" % mode)
 
 
 def spec_wrap_add_text_pre(ctx, make_exe):
@@ -1249,11 +1249,12 @@ def spec_wrap_add_text_tab(ctx, make_exe):
     and lands on the next 8-column stop when it fits."""
     total = 0
     for mode in ("Pre", "PreWrap"):
-        f, exe, m, ref, chars, outs = _run_add_text(
-            ctx, make_exe, mode, 1, ["\t"], False, loop_bound=30,
-            extra_pre=lambda m: [z3.ULE(m.width.e, u64(20)), m.wordlen.e == 0, z3.Not(m.word_nonempty.e)])
-        total += len(outs)
-        _wrap_pre_posts(exe, m, f, ref, chars, outs, mode)
+        for tag_some in (False, True):      # without / with pending spaces before the tab
+            f, exe, m, ref, chars, outs = _run_add_text(
+                ctx, make_exe, mode, 1, ["\t"], tag_some, loop_bound=30,
+                extra_pre=lambda m: [z3.ULE(m.width.e, u64(20)), m.wordlen.e == 0, z3.Not(m.word_nonempty.e)])
+            total += len(outs)
+            _wrap_pre_posts(exe, m, f, ref, chars, outs, mode)
     return {"function": f.name, "paths": total}
 
 
